@@ -18,6 +18,7 @@ inline int key_of(const TC8 &e) { return e.key; }
 inline int key_of(const TC12 &e) { return e.key; }
 inline int key_of(const Val &v) { return v.key; }
 inline int key_of(int k) { return k; }
+inline int key_of(double d) { return static_cast<int>(d); }
 
 static const int kHarnessOrigin = 0x5A;
 
